@@ -3262,7 +3262,12 @@ impl<'i, R: BufRead> XmlRead<'i> for IoReader<R> {
     fn read_to_end(&mut self, name: QName) -> Result<(), DeError> {
         match self.reader.read_to_end_into(name, &mut self.buf) {
             Err(e) => Err(e.into()),
-            Ok(_) => Ok(()),
+            Ok(_) => {
+                // The skipped events did not go through the trimmer. The last
+                // of them is an `End` event, after which text is start-trimmed
+                self.start_trimmer = StartTrimmer::default();
+                Ok(())
+            }
         }
     }
 
@@ -3331,7 +3336,12 @@ impl<'de> XmlRead<'de> for SliceReader<'de> {
     fn read_to_end(&mut self, name: QName) -> Result<(), DeError> {
         match self.reader.read_to_end(name) {
             Err(e) => Err(e.into()),
-            Ok(_) => Ok(()),
+            Ok(_) => {
+                // The skipped events did not go through the trimmer. The last
+                // of them is an `End` event, after which text is start-trimmed
+                self.start_trimmer = StartTrimmer::default();
+                Ok(())
+            }
         }
     }
 
